@@ -50,18 +50,22 @@ theorem fastFindFrom_some (L : List Rx.Lit) (hay : Bytes) : ∀ (fuel pos i : Na
       · exact ih _ _ h
       · cases h
 
-/-- **the built matcher meets the matcher-level contract** (LF terminator, context-independent look-arounds,
-well-formed prefilter literals) -/
-theorem bridge_contract (isWord : Nat → Bool) (rcfg : Rx.Config) (pats : List Bytes) (translated : Rx.Hir)
+/-- the built matcher meets the matcher-level contract for LF, given context independence on the line
+windows that pass the guard `G` -/
+theorem bridge_contract_gen (isWord : Nat → Bool) (rcfg : Rx.Config) (pats : List Bytes) (translated : Rx.Hir)
     (accelerated : Bool) (optimize : Rx.Seq → Rx.Seq) (norm : Rx.Hir → Rx.Hir) (shortest : Bytes → Option Nat)
     (m : Rx.MatcherM) (hb : rcfg.build pats translated accelerated optimize norm = .ok m)
     (hnorm : ∀ h hay s e, Rx.Matches (Rx.lookAt isWord) (norm h) hay s e ↔ Rx.Matches (Rx.lookAt isWord) h hay s e)
     (hopt : C11.OptimizeCert optimize m.hir ((rcfg.lineTerm.map Rx.LineTerm.bytes).getD []))
     (heng : C11.EngineSpec (Rx.lookAt isWord) m.hir shortest)
     (hterm : rcfg.lineTerm = some (.byte 10))
-    (hsafe : Rx.allLooks Rx.safeLookLF m.hir = true)
-    (hlits : ∀ L, m.fastLits = some L → ∀ l ∈ L, l.bytes ≠ [] ∧ 10 ∉ l.bytes) :
-    MatchContract 10 (bridge m shortest) (Rx.Matches (Rx.lookAt isWord) m.hir) := by
+    (hlits : ∀ L, m.fastLits = some L → ∀ l ∈ L, l.bytes ≠ [] ∧ 10 ∉ l.bytes)
+    (G : Bytes → Nat → Nat → Prop)
+    (hctx : ∀ (hay : Bytes) (w c : Nat), G hay w c → (w = 0 ∨ hay[w - 1]? = some 10) →
+      (w + c = hay.length ∨ hay[w + c]? = some 10) → w + c ≤ hay.length → ∀ s e, w ≤ s → s ≤ e → e ≤ w + c →
+      (Rx.Matches (Rx.lookAt isWord) m.hir hay s e ↔
+        Rx.Matches (Rx.lookAt isWord) m.hir ((hay.drop w).take c) (s - w) (e - w))) :
+    MatchContract 10 (bridge m shortest) (Rx.Matches (Rx.lookAt isWord) m.hir) G := by
   have hno : ∀ {hay s e}, Rx.Matches (Rx.lookAt isWord) m.hir hay s e → Rx.NoByteIn 10 hay s e := by
     intro hay s e hm
     have := C01Regex.C01_regex_no_terminator (Rx.lookAt isWord) rcfg pats translated accelerated optimize norm shortest m
@@ -78,12 +82,7 @@ theorem bridge_contract (isWord : Nat → Bool) (rcfg : Rx.Config) (pats : List 
   · intro hay s e hm x h1 h2; exact hno hm x h1 h2
   · intro hay i h; rw [bridge_shortest] at h; exact heng.some_ hay i h
   · intro hay h; rw [bridge_shortest] at h; exact heng.none_ hay h
-  · intro hay w c hbefore hafter hle s e h1 h2 h3
-    have hl : Rx.IsLine 10 hay w (w + c) := ⟨hle, Nat.le_add_right _ _, hbefore, hafter⟩
-    have := C01Regex.LineSafeB_partial isWord m.hir hsafe hay w (w + c) hl s e h1 h2 h3
-    have hs : Rx.slice hay w (w + c) = (hay.drop w).take c := by simp [Rx.slice]
-    rw [hs] at this
-    exact this
+  · exact hctx
   · intro hay h s e hm
     obtain ⟨c, h1, _⟩ := hcand hm
     simp only [bridge] at h
@@ -125,5 +124,53 @@ theorem bridge_contract (isWord : Nat → Bool) (rcfg : Rx.Config) (pats : List 
           rw [hcand_eq] at hc1
           cases hc1
           exact hc2 x h1 h2
+
+/-- **the built matcher meets the matcher-level contract** (LF terminator, look-arounds that are LF anchors or
+ASCII word assertions, well-formed prefilter literals); no guard on the windows -/
+theorem bridge_contract (isWord : Nat → Bool) (rcfg : Rx.Config) (pats : List Bytes) (translated : Rx.Hir)
+    (accelerated : Bool) (optimize : Rx.Seq → Rx.Seq) (norm : Rx.Hir → Rx.Hir) (shortest : Bytes → Option Nat)
+    (m : Rx.MatcherM) (hb : rcfg.build pats translated accelerated optimize norm = .ok m)
+    (hnorm : ∀ h hay s e, Rx.Matches (Rx.lookAt isWord) (norm h) hay s e ↔ Rx.Matches (Rx.lookAt isWord) h hay s e)
+    (hopt : C11.OptimizeCert optimize m.hir ((rcfg.lineTerm.map Rx.LineTerm.bytes).getD []))
+    (heng : C11.EngineSpec (Rx.lookAt isWord) m.hir shortest)
+    (hterm : rcfg.lineTerm = some (.byte 10))
+    (hsafe : Rx.allLooks Rx.safeLookLF m.hir = true)
+    (hlits : ∀ L, m.fastLits = some L → ∀ l ∈ L, l.bytes ≠ [] ∧ 10 ∉ l.bytes) :
+    MatchContract 10 (bridge m shortest) (Rx.Matches (Rx.lookAt isWord) m.hir) (fun _ _ _ => True) := by
+  apply bridge_contract_gen isWord rcfg pats translated accelerated optimize norm shortest m hb hnorm hopt heng hterm hlits
+  intro hay w c _ hbefore hafter hle s e h1 h2 h3
+  have hl : Rx.IsLine 10 hay w (w + c) := ⟨hle, Nat.le_add_right _ _, hbefore, hafter⟩
+  have := C01Regex.LineSafeB_partial isWord m.hir hsafe hay w (w + c) hl s e h1 h2 h3
+  have hs : Rx.slice hay w (w + c) = (hay.drop w).take c := by simp [Rx.slice]
+  rw [hs] at this
+  exact this
+
+/-- window guard of the Unicode variant: the window is empty or does not start with a UTF-8 continuation byte -/
+def NoContStart (hay : Bytes) (w c : Nat) : Prop := c = 0 ∨ Rx.isContByte (hay.getD w 0) = false
+
+/-- the same including the Unicode word assertions (ripgrep's default `-w`), on windows that do not start with a
+UTF-8 continuation byte (finding F24 is exactly the excluded case) -/
+theorem bridge_contract_unicode (isWord : Nat → Bool) (hw : isWord 10 = false) (rcfg : Rx.Config) (pats : List Bytes)
+    (translated : Rx.Hir)
+    (accelerated : Bool) (optimize : Rx.Seq → Rx.Seq) (norm : Rx.Hir → Rx.Hir) (shortest : Bytes → Option Nat)
+    (m : Rx.MatcherM) (hb : rcfg.build pats translated accelerated optimize norm = .ok m)
+    (hnorm : ∀ h hay s e, Rx.Matches (Rx.lookAt isWord) (norm h) hay s e ↔ Rx.Matches (Rx.lookAt isWord) h hay s e)
+    (hopt : C11.OptimizeCert optimize m.hir ((rcfg.lineTerm.map Rx.LineTerm.bytes).getD []))
+    (heng : C11.EngineSpec (Rx.lookAt isWord) m.hir shortest)
+    (hterm : rcfg.lineTerm = some (.byte 10))
+    (hsafe : Rx.allLooks (fun k => Rx.safeLookLF k || Rx.safeLookU k) m.hir = true)
+    (hlits : ∀ L, m.fastLits = some L → ∀ l ∈ L, l.bytes ≠ [] ∧ 10 ∉ l.bytes) :
+    MatchContract 10 (bridge m shortest) (Rx.Matches (Rx.lookAt isWord) m.hir) NoContStart := by
+  apply bridge_contract_gen isWord rcfg pats translated accelerated optimize norm shortest m hb hnorm hopt heng hterm hlits
+  intro hay w c hg hbefore hafter hle s e h1 h2 h3
+  have hl : Rx.IsLineU hay w (w + c) :=
+    { le_len := hle, ls_le := Nat.le_add_right _ _, before := hbefore, after := hafter
+      guard := by rcases hg with h | h
+                  · left; omega
+                  · right; exact h }
+  have := C01Regex.LineSafeB_partial_unicode isWord hw m.hir hsafe hay w (w + c) hl s e h1 h2 h3
+  have hs : Rx.slice hay w (w + c) = (hay.drop w).take c := by simp [Rx.slice]
+  rw [hs] at this
+  exact this
 
 end RgVerif.Props.C01
